@@ -95,8 +95,7 @@ CANARIES = {
     ],
     "C11": [
         ("overwrite-refusal-removed", "stix2/datastore/filesystem.py", "drop-raise-guard", ["_check_path_and_write", "os.path.isfile"], "C11.check-before-write"),
-        ("newest-reversed", "stix2/datastore/memory.py", "reverse-compare", ["_ObjectFamily.add"], "C11.newest"),
-        ("newest-pointer-stale-on-equal-modified", "stix2/datastore/memory.py", "text", ['obj["modified"] >= self.latest_version["modified"]', 'obj["modified"] > self.latest_version["modified"]'], "C11.newest"),
+        ("oldest-returned", "stix2/datastore/memory.py", "text", ['candidate["modified"] > stix_obj["modified"]', 'candidate["modified"] < stix_obj["modified"]'], "C11.newest"),
     ],
     "C12": [
         ("operator-flipped", "stix2/datastore/filters.py", "flip-compare", ["Filter._check_property", "GtE -> Gt", "stix_obj_property >= filter_value"], "C12.operator-table"),
